@@ -1024,3 +1024,191 @@ fn probes(out: &mut Out) {
         }
     }
 }
+
+// ------------------------------------------------------------------------------------------------
+// stream `c18symc`: the COMPILER FRAGMENT modelled in Lean (Cedar/SymCompile.lean)
+// ------------------------------------------------------------------------------------------------
+//
+// One case = one random expression of the fragment (bool / long / string / entity literals, principal / action /
+// resource, ! - && || if == < <= + - *; longs near the i64 bounds so that overflow -> none is frequent) used as the
+// `when` clause of a static policy, on a fixed tiny schema and one of four requests.  The only public route to the real
+// compiler is `CompiledPolicy::compile_with_custom_symenv` (typechecker, then symccopt/compiler.rs whose term is the
+// one of symcc/compiler.rs; the struct derives Debug, its private `term` is read back from `{:?}`), so
+//   * only boolean conditions accepted by the strict typechecker are observable (others are counted and skipped);
+//   * the impl line is the folded term: `(some (b true))`, `(some (b false))`, `(none)`; anything else is printed
+//     as `(nonliteral …)` and diffs;  a CompileError after a successful typecheck is `(reject)`.
+// Request line: `(symc REQ (etys …) EXPR)` with EXPR = `Policy::condition()` (scope conjuncts `true && …` included).
+// S (implementation only): the folded term equals what `Evaluator::evaluate` gives on the same request.
+
+fn symc_long(r: &mut Rng, d: u32) -> String {
+    if d == 0 || r.chance(35) {
+        let specials: [i64; 10] = [0, 1, -1, 2, 9223372036854775807, -9223372036854775807, 9223372036854775806, 4294967296, 3037000500, -3037000500];
+        return if r.chance(60) { format!("{}", specials[r.below(specials.len())]) } else { format!("{}", r.range(-5, 6)) };
+    }
+    match r.below(6) {
+        0 => format!("(-({}))", symc_long(r, d - 1)),
+        1 => format!("({} + {})", symc_long(r, d - 1), symc_long(r, d - 1)),
+        2 => format!("({} - {})", symc_long(r, d - 1), symc_long(r, d - 1)),
+        3 => format!("({} * {})", symc_long(r, d - 1), symc_long(r, d - 1)),
+        4 => format!("(if {} then {} else {})", symc_bool(r, d - 1), symc_long(r, d - 1), symc_long(r, d - 1)),
+        _ => format!("(-9223372036854775808 + {})", symc_long(r, d - 1)),
+    }
+}
+
+fn symc_user(r: &mut Rng, d: u32) -> String {
+    match r.below(if d == 0 { 3 } else { 4 }) {
+        0 => "principal".into(),
+        1 => "User::\"a\"".into(),
+        2 => "User::\"b\"".into(),
+        _ => format!("(if {} then {} else {})", symc_bool(r, d - 1), symc_user(r, d - 1), symc_user(r, d - 1)),
+    }
+}
+
+fn symc_str(r: &mut Rng, d: u32) -> String {
+    match r.below(if d == 0 { 3 } else { 4 }) {
+        0 => "\"x\"".into(),
+        1 => "\"\"".into(),
+        2 => "\"x y\"".into(),
+        _ => format!("(if {} then {} else {})", symc_bool(r, d - 1), symc_str(r, d - 1), symc_str(r, d - 1)),
+    }
+}
+
+fn symc_bool(r: &mut Rng, d: u32) -> String {
+    if d == 0 {
+        return match r.below(4) {
+            0 => "true".into(),
+            1 => "false".into(),
+            2 => format!("(principal == {})", symc_user(r, 0)),
+            _ => format!("(action == Action::\"{}\")", if r.chance(50) { "view" } else { "edit" }),
+        };
+    }
+    match r.below(14) {
+        0 => format!("!({})", symc_bool(r, d - 1)),
+        1 | 2 => format!("({} && {})", symc_bool(r, d - 1), symc_bool(r, d - 1)),
+        3 | 4 => format!("({} || {})", symc_bool(r, d - 1), symc_bool(r, d - 1)),
+        5 => format!("(if {} then {} else {})", symc_bool(r, d - 1), symc_bool(r, d - 1), symc_bool(r, d - 1)),
+        6 | 7 => format!("({} == {})", symc_long(r, d - 1), symc_long(r, d - 1)),
+        8 => format!("({} < {})", symc_long(r, d - 1), symc_long(r, d - 1)),
+        9 => format!("({} <= {})", symc_long(r, d - 1), symc_long(r, d - 1)),
+        10 => format!("({} == {})", symc_user(r, d - 1), symc_user(r, d - 1)),
+        11 => format!("({} == {})", symc_str(r, d - 1), symc_str(r, d - 1)),
+        12 => format!("({} == {})", symc_bool(r, d - 1), symc_bool(r, d - 1)),
+        // planted: mixed types (the strict typechecker rejects these, or folds them away behind a constant guard)
+        _ => match r.below(4) {
+            0 => format!("({} == {})", symc_long(r, d - 1), symc_str(r, d - 1)),
+            1 => format!("((resource == Doc::\"d\") || ({} < 1))", symc_long(r, d - 1)),
+            2 => format!("(false && (({} + 1) == {}))", symc_long(r, d - 1), symc_long(r, d - 1)),
+            _ => format!("((Color::\"red\" == Color::\"green\") || {})", symc_bool(r, d - 1)),
+        },
+    }
+}
+
+/// the private `term` of a `CompiledPolicy`, read from its derived Debug output (`CompiledPolicy { term: …, symenv: …`)
+fn symc_read_term(cp: &sc::CompiledPolicy) -> String {
+    let dbg = format!("{cp:?}");
+    // the public struct wraps the crate-internal one: `CompiledPolicy { policy: CompiledPolicy { term: …, symenv: …`
+    let Some(at) = dbg.find("CompiledPolicy { term: ") else { return format!("(nonliteral {})", crate::out::jstr(&clip(dbg))) };
+    let rest = &dbg[at + "CompiledPolicy { term: ".len()..];
+    if rest.starts_with("Some(Prim(Bool(true))), symenv:") {
+        "(some (b true))".into()
+    } else if rest.starts_with("Some(Prim(Bool(false))), symenv:") {
+        "(some (b false))".into()
+    } else if rest.starts_with("None(") {
+        "(none)".into()
+    } else {
+        let end = rest.find(", symenv:").unwrap_or(rest.len().min(300));
+        format!("(nonliteral {})", crate::out::jstr(&rest[..end.min(rest.len())]))
+    }
+}
+
+pub fn run_symc(args: &Args, out: &mut Out) {
+    let ext = Extensions::all_available();
+    let text = "entity User; entity Doc; entity Color enum [\"red\", \"green\"]; action view, edit appliesTo { principal: User, resource: Doc };";
+    let (vschema, _) = ValidatorSchema::from_cedarschema_str(text, ext).expect("symc schema");
+    let schema: cedar_policy::Schema = vschema.clone().into();
+    let pub_ents = cedar_policy::Entities::from_json_value(serde_json::json!([
+        {"uid": {"type": "User", "id": "a"}, "attrs": {}, "parents": []},
+        {"uid": {"type": "User", "id": "b"}, "attrs": {}, "parents": []},
+        {"uid": {"type": "Doc", "id": "d"}, "attrs": {}, "parents": []}
+    ]), Some(&schema)).expect("symc store");
+    let entities: &Entities = pub_ents.as_ref();
+    let etys = "(etys (std \"User\") (std \"Doc\") (enum \"Color\" \"red\" \"green\") (enum \"Action\" \"view\" \"edit\"))";
+    let mut rng = Rng::new(args.seed);
+    // fixed cases first (the non-vacuity examples of Thm/C18.lean), then random ones
+    let fixed: Vec<String> = vec![
+        "if principal == User::\"a\" then 1 + 2 < 4 else !(true && false)".into(),
+        "9223372036854775807 + 1 == 0".into(),
+        "false && (9223372036854775807 + 1 == 0)".into(),
+        "(9223372036854775807 + 1 == 0) || true".into(),
+        "-(-9223372036854775807 - 1) == 0".into(),
+        "3037000500 * 3037000500 < 0".into(),
+        "-9223372036854775808 - 1 < 0".into(),
+    ];
+    let total = fixed.len() as u64 + args.n;
+    for case in 0..total {
+        let mut r = rng.fork();
+        let body = if (case as usize) < fixed.len() { fixed[case as usize].clone() } else { let d = 1 + r.below(4) as u32; symc_bool(&mut r, d) };
+        let (p, a) = (["a", "b"][r.below(2)], ["view", "edit"][r.below(2)]);
+        out.cases += 1;
+        let ptext = format!("permit(principal, action, resource) when {{ {body} }};");
+        let pols = parse_policies(&[ptext.clone()]);
+        let Some((pol, _)) = pols.first() else {
+            out.propfail("harness: generated policy does not parse", &ptext, "");
+            continue;
+        };
+        let (pu, au, ru): (EntityUID, EntityUID, EntityUID) = (format!("User::\"{p}\"").parse().unwrap(), format!("Action::\"{a}\"").parse().unwrap(), "Doc::\"d\"".parse().unwrap());
+        let req = ast::Request::new((pu.clone(), None), (au.clone(), None), (ru.clone(), None), ast::Context::empty(), Some(&vschema), ext).expect("symc request");
+        let env = cedar_policy::RequestEnv::new(pu.entity_type().clone().into(), au.clone().into(), ru.entity_type().clone().into());
+        let cenv = sc::Env { request: req.clone().into(), entities: entities.clone().into() };
+        let describe = format!("symc case={case} p=User::\"{p}\" a=Action::\"{a}\" r=Doc::\"d\" when `{body}`");
+        let symenv = match catch_unwind(AssertUnwindSafe(|| sc::SymEnv::from_concrete_env(&env, &schema, &cenv))) {
+            Ok(Ok(e)) => e,
+            other => {
+                out.propfail("SymEnv::from_concrete_env fails on a conformant request and store", &describe, &format!("{:?}", other.map(|r| r.map(|_| ()))));
+                continue;
+            }
+        };
+        let pp: cedar_policy::Policy = pol.clone().into();
+        let imp = match catch_unwind(AssertUnwindSafe(|| sc::CompiledPolicy::compile_with_custom_symenv(&pp, &env, &schema, symenv.clone()))) {
+            Ok(Ok(cp)) => symc_read_term(&cp),
+            Ok(Err(sc::err::Error::PolicyNotWellTyped { .. })) => {
+                out.count("symc:skipped:typechecker-rejects");
+                continue;
+            }
+            Ok(Err(e)) => {
+                out.count("symc:compile-error");
+                let _ = e;
+                "(reject)".to_string()
+            }
+            Err(pn) => {
+                out.propfail("panic in the symbolic compiler", &describe, &crate::c02::panic_msg(pn));
+                continue;
+            }
+        };
+        // S: against the real evaluator
+        let ev = Evaluator::new(req.clone(), entities, ext);
+        let conc = match catch_unwind(AssertUnwindSafe(|| ev.evaluate(pol))) {
+            Ok(Ok(true)) => "(some (b true))",
+            Ok(Ok(false)) => "(some (b false))",
+            Ok(Err(_)) => "(none)",
+            Err(pn) => {
+                out.propfail("panic in the evaluator", &describe, &crate::c02::panic_msg(pn));
+                continue;
+            }
+        };
+        if imp != conc {
+            out.propfail("C18: the compiled condition does not fold to the evaluator's result on the literal environment", &describe, &format!("compiled {imp}, evaluator {conc}"));
+        }
+        let Some(ex) = crate::sx::expr(&pol.condition()) else {
+            out.count("symc:skipped:unprintable");
+            continue;
+        };
+        out.count(&format!("symc:folded:{}", if imp.starts_with("(nonliteral") { "(nonliteral)" } else { imp.as_str() }));
+        out.nontrivial(&format!("{body}|{p}|{a}"));
+        if out.samples.len() < 5 {
+            out.sample(format!("{describe} -> {imp}"));
+        }
+        let reqline = format!("(symc (req {} {} {} (ctx)) {etys} {ex})", crate::sx::uid(&pu), crate::sx::uid(&au), crate::sx::uid(&ru));
+        out.line(reqline, imp, describe);
+    }
+}
